@@ -248,12 +248,24 @@ fn main() {
         if t.is_empty() || t[0].starts_with('#') {
             continue;
         }
+        // a router whose construction unwound does not exist: skip the calls addressed to it
+        if matches!(t[0], "clone" | "cons" | "insert" | "delete" | "search" | "threads" | "dumpof") && !routers.contains_key(t[1])
+            || matches!(t[0], "same") && !(routers.contains_key(t[1]) && routers.contains_key(t[2]))
+        {
+            continue;
+        }
         match t[0] {
-            "new" => {
-                routers.insert(t[1].to_owned(), Router::new());
-                writeln!(out, "new {}", t[1]).unwrap();
-                writeln!(out, "{}", arcs_line(&routers)).unwrap();
-            }
+            "new" => match catch_unwind(Router::<u32>::new) {
+                Ok(r) => {
+                    routers.insert(t[1].to_owned(), r);
+                    writeln!(out, "new {}", t[1]).unwrap();
+                    writeln!(out, "{}", arcs_line(&routers)).unwrap();
+                }
+                Err(_) => {
+                    routers.remove(t[1]);
+                    writeln!(out, "newpanic {}", t[1]).unwrap();
+                }
+            },
             "clone" => {
                 let c = routers[t[1]].clone();
                 routers.insert(t[2].to_owned(), c);
